@@ -435,6 +435,8 @@ def int_lax_coercion_loader(data):
         if e_str.startswith("invalid literal"):
             raise ValueLoadError("Bad string format", data)
         raise ValueLoadError(e_str, data)
+    except OverflowError as e:
+        raise ValueLoadError(str(e), data)
     except TypeError:
         raise TypeLoadError(Union[int, float, str], data)
 
@@ -450,7 +452,10 @@ INT_PROVIDER = ScalarProvider(
 
 def float_strict_coercion_loader(data):
     if type(data) in (float, int):
-        return float(data)
+        try:
+            return float(data)
+        except OverflowError as e:
+            raise ValueLoadError(str(e), data)
     raise TypeLoadError(Union[float, int], data)
 
 
@@ -462,6 +467,8 @@ def float_lax_coercion_loader(data):
         if e_str.startswith("could not convert string"):
             raise ValueLoadError("Bad string format", data)
         raise ValueLoadError(e_str, data)
+    except OverflowError as e:
+        raise ValueLoadError(str(e), data)
     except TypeError:
         raise TypeLoadError(Union[int, float, str], data)
 
@@ -540,7 +547,7 @@ def fraction_strict_coercion_loader(data):
     if type(data) in (str, Fraction):
         try:
             return Fraction(data)
-        except ValueError:
+        except (ValueError, ZeroDivisionError):
             raise ValueLoadError("Bad string format", data)
     raise TypeLoadError(Union[str, Fraction], data)
 
@@ -554,6 +561,8 @@ def fraction_lax_coercion_loader(data):
         str_e = str(e)
         if str_e.startswith("Invalid literal"):
             raise ValueLoadError("Bad string format", data)
+        raise ValueLoadError(str(e), data)
+    except (ZeroDivisionError, OverflowError) as e:
         raise ValueLoadError(str(e), data)
 
 
@@ -582,6 +591,8 @@ def complex_lax_coercion_loader(data):
         raise TypeLoadError(Union[str, complex], data)
     except ValueError:
         raise ValueLoadError("Bad string format", data)
+    except OverflowError as e:
+        raise ValueLoadError(str(e), data)
 
 
 COMPLEX_PROVIDER = ScalarProvider(
